@@ -220,11 +220,21 @@ func ruleParseValidated(w *World, r *RuleResult) {
 			if !isK || k.Value == nil || k.Value.Kind() != constant.Int {
 				continue
 			}
-			// the "not a digit" edge reaches an error return
+			// the "not a digit" edge reaches an error return — directly, or as `return false` of a
+			// predicate helper whose false result returns an error at every call site
 			errEdge := false
 			for _, sc := range b.Succs {
-				if rt, isRet := sc.Instrs[len(sc.Instrs)-1].(*ssa.Return); isRet && w.isErrorReturn(rt) {
+				rt, isRet := sc.Instrs[len(sc.Instrs)-1].(*ssa.Return)
+				if !isRet {
+					continue
+				}
+				if w.isErrorReturn(rt) {
 					errEdge = true
+				}
+				if len(rt.Results) == 1 {
+					if kk, isKK := rt.Results[0].(*ssa.Const); isKK && kk.Value != nil && kk.Value.Kind() == constant.Bool && !boolConst(kk) && w.falseMeansError(pf) {
+						errEdge = true
+					}
 				}
 			}
 			if ci(k) == '0' && bo.Op == token.LSS && errEdge {
@@ -619,4 +629,50 @@ func ruleCmpTotal(w *World, r *RuleResult) {
 			r.bad(name+" | pure", w.pos(g.Pos()), "a comparison writes to its operands or to shared state")
 		}
 	}
+}
+
+// falseMeansError: at every call site of the predicate h, the block reached
+// when h returned false ends in an error return.
+func (w *World) falseMeansError(h *ssa.Function) bool {
+	callers := w.callersOf(h)
+	if len(callers) == 0 {
+		return false
+	}
+	for _, c := range callers {
+		call, ok := c.(*ssa.Call)
+		if !ok {
+			return false
+		}
+		okSite := false
+		g := c.Parent()
+		for _, b := range g.Blocks {
+			iff, isIf := b.Instrs[len(b.Instrs)-1].(*ssa.If)
+			if !isIf {
+				continue
+			}
+			// if h(x) {...} else {error}   or   if !h(x) {error}
+			falseSucc := -1
+			switch cnd := iff.Cond.(type) {
+			case *ssa.Call:
+				if cnd == call {
+					falseSucc = 1
+				}
+			case *ssa.UnOp:
+				if cnd.Op == token.NOT && cnd.X == ssa.Value(call) {
+					falseSucc = 0
+				}
+			}
+			if falseSucc < 0 {
+				continue
+			}
+			sc := b.Succs[falseSucc]
+			if rt, isRet := sc.Instrs[len(sc.Instrs)-1].(*ssa.Return); isRet && w.isErrorReturn(rt) {
+				okSite = true
+			}
+		}
+		if !okSite {
+			return false
+		}
+	}
+	return true
 }
